@@ -264,6 +264,8 @@ func Record(args []string) error {
 	return nil
 }
 
+const reexecRepeats = 12
+
 // reexecute rebuilds the history of a recorded trace and runs the same
 // negotiations on the current code, writing the events it produces now.
 func reexecute(path string, emit func(*Event) error) error {
@@ -284,9 +286,20 @@ func reexecute(path string, emit func(*Event) error) error {
 		if h == nil {
 			return fmt.Errorf("negotiation before any history")
 		}
-		for _, e := range negotiation(h, rounds, depth) {
-			if err := emit(e); err != nil {
-				return err
+		// the outcome may depend on the iteration order of a map inside the real code:
+		// the negotiation is run several times, the wants given in every rotation
+		for rep := 0; rep < reexecRepeats; rep++ {
+			rs := make([]Round, len(rounds))
+			for i, r := range rounds {
+				rs[i] = r
+				if len(r.W) > 1 {
+					rs[i].W = rotated(r.W, rep%len(r.W))
+				}
+			}
+			for _, e := range negotiation(h, rs, depth) {
+				if err := emit(e); err != nil {
+					return err
+				}
 			}
 		}
 		rounds = nil
